@@ -346,6 +346,84 @@ def _wakepass_rule(chk, prog):
         raise AnalysisBroken("janet_channel_push_with_lock: enqueue into channel->items not found")
 
 
+def _ringorder_rule(chk, prog):
+    """JanetQueue is a ring: once it has wrapped, the oldest items are in [head, capacity) and the newer ones in
+    [0, tail).  Code that walks or copies the whole queue in two pieces (growing the ring, marshalling a channel, marking)
+    must therefore handle the piece that starts at `head` first; taking [0, tail) first rotates the queue - no item is
+    lost, but later gives overtake earlier ones."""
+    rule = "C06-RINGORDER"
+    chk.rule(rule, "whoever processes both segments of a wrapped queue handles the segment starting at head before the one starting at 0")
+    tu = prog.tus["ev.c"]
+    n = 0
+    for fn in tu.funcs.values():
+        # local aliases of head / tail
+        alias = {}
+        loopvars = set(y.id for x in fn.nodes if x.k == "for" and x.kids[0] is not None for y in x.kids[0].walk() if y.k == "vardecl")
+        for x in fn.nodes:
+            if x.k == "vardecl" and x.kids and x.id not in loopvars:
+                fields = set(y.field for y in x.kids[0].walk() if y.k == "mem" and y.field in ("head", "tail"))
+                if fields:
+                    alias[x.name] = fields
+
+        def mentions(e, field):
+            for y in e.walk():
+                if y.k == "mem" and y.field == field:
+                    return True
+                if y.k == "ref" and field in alias.get(y.name, ()):
+                    return True
+            return False
+        H, T_ = [], []
+        for x in fn.nodes:
+            if x.k == "for" and x.kids[0] is not None and x.kids[1] is not None:
+                inits = [y for y in x.kids[0].walk() if (y.k == "asg" and y.op == "=") or (y.k == "vardecl" and y.kids)]
+                if not inits:
+                    continue
+                start = inits[0].kids[1] if inits[0].k == "asg" else inits[0].kids[0]
+                if mentions(start, "head"):
+                    H.append(x)
+                elif strip_casts(start).v == 0 and mentions(x.kids[1], "tail") and not mentions(x.kids[1], "head"):
+                    T_.append(x)
+            if x.k == "call" and x.callee in ("memcpy", "memmove", "safe_memcpy") and len(x.args) == 3:
+                if mentions(x.args[1], "head"):
+                    H.append(x)
+                elif mentions(x.args[2], "tail") and not mentions(x.args[2], "head") and not mentions(x.args[1], "tail"):
+                    T_.append(x)
+        if not H or not T_:
+            continue
+        chk.analysed(fn)
+
+        def block_of(x):
+            for b in fn.blocks.values():
+                if any(e is x or any(y is x for y in e.walk()) for e in b.elems) or (b.term is x) or (b.cond is not None and b.term is x):
+                    return b.id
+            # a `for` statement: use the block that evaluates its condition
+            for b in fn.blocks.values():
+                if b.term is x:
+                    return b.id
+            return None
+        for t in T_:
+            n += 1
+            chk.instance(rule)
+            tb = block_of(t)
+            late = []
+            for h in H:
+                hb = block_of(h)
+                if tb is None or hb is None:
+                    continue
+                reach = flow.reachable_from(fn, tb)
+                if hb in reach and hb != tb and not (hb in flow.reachable_from(fn, hb) and tb in flow.reachable_from(fn, hb) and h.ln < t.ln):
+                    late.append(h)
+                elif hb == tb and (h.ln, h.d.get("col", 0)) > (t.ln, t.d.get("col", 0)):
+                    late.append(h)
+            if late:
+                chk.violation(rule, "ev.c", fn.name, "segments", t.loc,
+                              "%s handles the queue segment [0, tail) (%s) before the segment that starts at head (%s): for a wrapped "
+                              "queue the newer items come out ahead of the older ones" % (fn.name, t.loc, late[0].loc))
+            else:
+                chk.ok(rule, "%s: the [0, tail) segment at %s is handled after the head segment" % (fn.name, t.loc))
+    chk.floor(rule, 2, n)
+
+
 def run(chk):
     prog = Program.load("default", units=["ev.c"])
     _select_rule(chk, prog)
@@ -353,3 +431,4 @@ def run(chk):
     _sched_rule(chk, prog)
     _queue_rule(chk, prog)
     _wakepass_rule(chk, prog)
+    _ringorder_rule(chk, prog)
